@@ -1,6 +1,47 @@
 #!/bin/bash
-# thorough tier: quick rules + build-configuration sweep (+ mutant corpus as sensitivity evidence)
+# thorough tier for one property:
+#   1. the quick rule set, re-decided under every build configuration (inside godicheck -tier thorough);
+#   2. sensitivity evidence: the checker is run on a scratch copy of the repository for every corpus
+#      entry of this property (mutants/*.diff, seeded/<id>/patch.diff); detection results are merged
+#      into the evidence file. Sensitivity never changes the exit status.
+#   3. cross-reference: go vet (copylocks, lostcancel, atomic) on the root module, recorded only.
 set -uo pipefail
 here="$(cd "$(dirname "$0")/.." && pwd)"
 prop="$1"; root="${2:-/repo}"
-exec "$here/bin/godicheck" -property "$prop" -tier thorough -root "$root" -verif "$here"
+"$here/bin/godicheck" -property "$prop" -tier thorough -root "$root" -verif "$here"
+st=$?
+ev="$here/evidence/$prop.json"
+[ -f "$ev" ] || exit $st
+corpus=()
+for f in "$here"/mutants/*.diff; do
+  head -1 "$f" | grep -q "property=$prop " && corpus+=("$f")
+done
+for d in "$here"/seeded/"$prop"-*; do [ -f "$d/patch.diff" ] && corpus+=("$d/patch.diff"); done
+sens="[]"
+if [ ${#corpus[@]} -gt 0 ] && [ "$root" = /repo ]; then
+  out=$(GODICHECK="$here/bin/godicheck" "$here/tools/sweep.sh" "$prop" "${corpus[@]}" 2>/dev/null)
+  sens=$(echo "$out" | python3 -c '
+import sys, re, json
+res=[]
+for l in sys.stdin:
+    m=re.match(r"(\S+): (PATCH-FAILED|(C\d+)=(\d)\[(.*?)\])", l.strip())
+    if not m: continue
+    if m.group(2)=="PATCH-FAILED": res.append({"entry":m.group(1),"status":"skipped: does not apply to the current tree"}); continue
+    res.append({"entry":m.group(1),"exit":int(m.group(4)),"rules":[x for x in m.group(5).split(",") if x],"detected":m.group(4)=="1"})
+print(json.dumps(res))')
+fi
+vet=$(cd "$root" && GOFLAGS=-mod=mod GOPROXY=off GOWORK=off go vet -copylocks -lostcancel -atomic ./... 2>&1 | grep -c . || true)
+python3 - "$ev" "$sens" "$vet" <<'PY'
+import json, sys
+ev, sens, vet = sys.argv[1], json.loads(sys.argv[2]), sys.argv[3]
+e = json.load(open(ev))
+c = e["coverage"]
+c["sensitivity_corpus"] = {"entries": len(sens), "detected": sum(1 for s in sens if s.get("detected")),
+    "note": "each entry is a change to the repository that compiles and passes the unedited test suite; the checker was run on a scratch copy with the entry applied; evidence only, never part of the verdict",
+    "results": sens}
+c["cross_reference"] = {"go_vet_copylocks_lostcancel_atomic_lines": int(vet), "note": "generic analyzers, recorded only; they decide nothing"}
+json.dump(e, open(ev, "w"), indent=1); open(ev, "a").write("\n")
+PY
+n=$(echo "$sens" | python3 -c 'import json,sys; s=json.load(sys.stdin); print(str(sum(1 for x in s if x.get("detected")))+"/"+str(len(s)))')
+echo "sensitivity corpus for $prop: detected $n"
+exit $st
